@@ -825,6 +825,10 @@ func judge(v *victim, ended bool, exact string, checkObs bool, r *result) {
 	}
 	if tc > 1 && v.kind == "meta" && v.tpanic {
 		r.fail("meta-terminate-panic-runs-terminate-again", "%s (%s): the Terminate callback panicked and was invoked again: it ran %d times; causes %v", v.label, v.subject(), tc, iss)
+	} else if tc == 2 && v.tpanic && killIssued(iss) && len(termReasons(evs)) == 2 && termReasons(evs)[0] != gen.TerminateReasonPanic && termReasons(evs)[1] == gen.TerminateReasonPanic {
+		// Node.Kill found the process already Terminated and wrote Zombee over it for a moment; the runner's recover
+		// handler (the terminate callback had panicked) swapped in exactly then, saw "not terminated" and tore down again
+		r.fail("late-kill-reopens-terminated-state-terminate-again", "%s (%s): terminate callback ran with reason %q, panicked, and ran again with reason panic while a Kill was in flight; causes %v", v.label, v.subject(), fmt.Sprint(termReasons(evs)[0]), iss)
 	} else if tc > 1 {
 		r.fail("terminate-twice", "%s (%s): terminate callback ran %d times; causes %v", v.label, v.subject(), tc, iss)
 	}
@@ -924,6 +928,25 @@ func judge(v *victim, ended bool, exact string, checkObs bool, r *result) {
 			}
 		}
 	}
+}
+
+func killIssued(iss []issue) bool {
+	for _, x := range iss {
+		if x.C == "kill" {
+			return true
+		}
+	}
+	return false
+}
+
+func termReasons(evs []actors.Ev) []error {
+	var r []error
+	for _, e := range evs {
+		if e.CB == "terminate" {
+			r = append(r, e.Err)
+		}
+	}
+	return r
 }
 
 // trappedExits counts exit signals delivered to a victim's HandleMessage as ordinary messages
